@@ -64,7 +64,7 @@ CHECKS = {
     'C19': dict(level='exploration', technique='differential decoder monitor: every split of encoded bodies vs zlib one-shot; corrupt/truncated inputs must raise',
                 text='The real decompressor classes and Stream.read_body are fed all single cuts, all-1-byte and random splits of gzip/zlib/raw deflate bodies; output must equal one-shot decoding; corrupt/truncated data must raise.',
                 note='zlib one-shot as reference'),
-    'C20': dict(level='exploration', technique='end-to-end crawl monitor with robots on: server log + client session-event order vs independent robots.txt matcher',
+    'C20': dict(level='exploration', technique='end-to-end crawl monitor with robots on: server log + client session-event order vs independent robots.txt matcher; crawls over 65-250 origins (each rule file requested once)',
                 text='Crawls with generated robots.txt files (sizes up to 20 KiB, several groups, redirects, 404/5xx), several origins and concurrency; request log checked against an independent matcher and ordering rules.',
                 note='reference matcher restricted to the consensus fragment'),
 }
